@@ -264,6 +264,12 @@ def gen_rules(rng, spec, kinds=("additive", "assignment", "ode"), freqs=("repeat
                 dest = "rp%d" % i; spec["parameters"][dest] = 1.0
                 rhs = rng.choice(["0.5 + 0.25*%s", "1 + %s/8"]) % rng.choice(avail)
                 rules.append(["assignment", {"equation": "%s = %s" % (dest, rhs)}, freq])
+        elif rng.random() < 0.35:
+            # an ODE rule whose target is a PARAMETER (a ramping constant): it writes no species at all, in any simulator
+            # (seeded change S7_C06: the volume-aware variant of the rule lost its parameter branch and wrote into the species vector)
+            dest = "rq%d" % i; spec["parameters"][dest] = 0.5
+            rhs = rng.choice(["0.125", "0.0625*%s", "0.25 - %s/16"]); rhs = rhs % tuple(rng.choice(avail) for _ in range(rhs.count("%s")))
+            rules.append(["ode", {"equation": rhs, "target": dest}])
         else:
             dest = "R%d" % i; spec["x0"][dest] = float(rng.randint(0, 3))
             rhs = rng.choice(["1", "0.5*%s", "2 - %s/4"]); rhs = rhs % tuple(rng.choice(avail) for _ in range(rhs.count("%s")))
